@@ -431,17 +431,20 @@ class C07(Prop):
                     # hook-less AI checkpoint claim every uncommitted change
                     for kind in ("truncate_tail", "garbage", "dir"):
                         faults.append({"family": "corrupt", "file": f, "kind": kind, "before_op": mid})
-        if tier == "quick" and len(faults) > 60:
-            # quick tier: every internal call (journal point, file) fails at least once - the plain failure of each
-            # call is kept - and the rest of the budget is a sample of the other kinds
+        cap = int(os.environ.get("GAISIM_C07_CAP", "60"))
+        ex.probe("enumerated.faults", len(faults))
+        ex.probe("enumerated.internal_calls", len(internal))
+        if tier == "quick" and len(faults) > cap:
+            # quick tier: every internal call (journal point, file) fails at least once - the plain failure of EVERY
+            # call is kept, however long the command is - and at least 20 more are sampled from the other kinds
             first = {}
             for f in faults:
                 key = (f["family"], f.get("idx"), f.get("point"), f.get("occ"), f.get("file"), f.get("before_op"))
                 if key not in first and f["kind"] in ("fail:128", "crash", "truncate_half", "truncate_tail"):
                     first[key] = f
-            keep = list(first.values())[:60]
+            keep = list(first.values())
             rest = [f for f in faults if f not in keep]
-            faults = keep + rng.sample(rest, max(0, min(len(rest), 60 - len(keep))))
+            faults = keep + rng.sample(rest, max(0, min(len(rest), max(cap - len(keep), 20))))
         evals = 1
         viol = None
         from .. import known as known_mod
